@@ -29,5 +29,8 @@ Verdict(e) ==
     [] e.op = "write" -> (IF e.raised = 1 THEN {"WriteReadTotal"} ELSE IF e.tags # e.readback THEN {"WrittenColoursIdentical"} ELSE {})
     [] e.op = "correction" -> (IF e.raised = 1 THEN {"CorrectionReloadTotal"}
                                ELSE (IF e.cls # e.rcls THEN {"ReaderDispatchesOnClass"} ELSE {})
-                                    \cup (IF e.same_output = 0 THEN {"ReloadedCorrectionSameOutput"} ELSE {}))
+                                    \cup (IF e.same_output = 0 THEN {"ReloadedCorrectionSameOutput"} ELSE {})
+                                    \* the reloaded object is equivalent: every plain-data field of its state (numbers, flags,
+                                    \* slices, arrays, nested containers, images) equals the saved object's; e.state_diff names the others
+                                    \cup (IF e.state_diff # <<>> THEN {"ReloadedCorrectionSameConfiguration"} ELSE {}))
 =============================================================================
